@@ -6,6 +6,8 @@ Used only by the correspondence check and the failing-input search, never by a t
 import Lean.Data.Json
 import CoCoVerif.Model.Cassette
 import CoCoVerif.Spec.Tape
+import CoCoVerif.Model.Disk
+import CoCoVerif.Spec.DiskBasic
 
 open Lean CoCo
 
@@ -61,8 +63,72 @@ def outcomeJson {α} (o : Outcome α) (f : α → List (String × Json)) : List 
   | .internal => [("k", "internal")]
   | .diverged => [("k", "diverged")]
 
+def hash64 (bs : List Nat) : Nat :=
+  bs.foldl (fun h b => (h * 1099511628211 + b + 1) % 18446744073709551616) 14695981039346656037
+
+/-- an image given as a fill byte plus patches `[[offset, "hex"], ...]`, or directly as "buf" hex -/
+def imgOfJson (j : Json) : List Nat :=
+  match j.getObjVal? "img" with
+  | .ok im =>
+    let size := getNat im "size"
+    let fill := getNat im "fill"
+    let base : Array Nat := Array.replicate size fill
+    let patched := (getArr im "patches").foldl (fun (a : Array Nat) p =>
+      match p with
+      | .arr #[o, h] =>
+        let off := (o.getNat?).toOption.getD 0
+        let bs := ofHex ((h.getStr?).toOption.getD "")
+        (bs.foldl (fun (acc : Array Nat × Nat) b => (acc.1.setIfInBounds acc.2 b, acc.2 + 1)) (a, off)).1
+      | _ => a) base
+    patched.toList
+  | .error _ => ofHex (getStr j "buf")
+
+def orderOfJson (j : Json) : List Nat :=
+  match j.getObjVal? "order" with
+  | .ok (.arr a) => a.toList.map (fun x => (x.getNat?).toOption.getD 0)
+  | _ => Gen.granuleFillOrder
+
+def dfileToJson (f : Spec.DiskBasic.DFile) : Json :=
+  Json.mkObj [("name", natsJson f.name), ("ext", natsJson f.ext), ("ftype", f.ftype), ("dtype", f.ascii),
+    ("load", f.load), ("exec", f.exec), ("data", toHex f.data)]
+
 def handle (j : Json) : List (String × Json) :=
   match getStr j "op" with
+  | "dsk.write" =>
+    let fs := (getArr j "files").toList.map cfileOfJson
+    let base := match j.getObjVal? "img" with
+      | .ok _ => imgOfJson j
+      | .error _ => Dsk.blank
+    outcomeJson (Dsk.addFiles (orderOfJson j) base fs) (fun b =>
+      [("hash", Json.num (JsonNumber.fromNat (hash64 b))), ("len", Json.num (JsonNumber.fromNat b.length)),
+       ("fat", Json.str (toHex ((b.drop 78592).take 256))),
+       ("dir", Json.str (toHex ((b.drop 78848).take 2304)))] ++
+      (if getBool j "full" then [("buf", Json.str (toHex b))] else []))
+  | "dsk.list" =>
+    outcomeJson (Dsk.list (imgOfJson j)) (fun fs => [("files", Json.arr (fs.map cfileToJson).toArray)])
+  | "dsk.rt" =>
+    let fs := (getArr j "files").toList.map cfileOfJson
+    match Dsk.write (orderOfJson j) fs with
+    | .ok b => ("wk", "ok") :: outcomeJson (Dsk.list b) (fun fs => [("files", Json.arr (fs.map cfileToJson).toArray)])
+    | o => [("wk", o.kind), ("k", "none")]
+  | "dsk.geom" =>
+    let lo := getNat j "lo"
+    let hi := getNat j "hi"
+    let row (pre post : Nat) := natsJson ((List.range (hi - lo)).flatMap (fun i =>
+      [Dsk.granulesNeeded (lo + i) pre post, Dsk.lastSectorBytes (lo + i) pre post, Dsk.lastGranuleSectors (lo + i) pre post]))
+    [("ml", row 5 5), ("basic", row 3 0), ("ascii", row 0 0),
+     ("sectors", natsJson ((List.range (hi - lo)).map (fun i => Dsk.sectorsNeeded (lo + i))))]
+  | "dsk.seek" => [("seek", natsJson ((List.range (getNat j "n")).map Dsk.seek))]
+  | "spec.fsck" =>
+    let img := imgOfJson j
+    let bad := Spec.DiskBasic.failedClauses img
+    [("ok", bad.isEmpty), ("failed", Json.arr (bad.map Json.str).toArray),
+     ("free", Spec.DiskBasic.freeGranules img), ("slots", Spec.DiskBasic.freeSlots img),
+     ("chains", Json.arr (((Spec.DiskBasic.liveSlots img).filterMap (Spec.DiskBasic.chainOf img)).map (fun c => natsJson c.1)).toArray)]
+  | "spec.dskread" =>
+    match Spec.DiskBasic.read (imgOfJson j) with
+    | some fs => [("ok", true), ("files", Json.arr (fs.map dfileToJson).toArray)]
+    | none => [("ok", false)]
   | "cas.write" =>
     let fs := (getArr j "files").toList.map cfileOfJson
     [("k", "ok"), ("buf", toHex (Cas.write fs))]
